@@ -31,6 +31,12 @@ func ruleNoDiscardedPull(c *Ctx, r *R, rels ...string) {
 					continue
 				}
 				k := 0
+				allOks := map[ssa.Value]bool{}
+				instrs(fn, func(_ *ssa.BasicBlock, _ int, in ssa.Instruction) {
+					if it, okv, _ := pulledItem(in); it != nil && okv != nil {
+						allOks[okv] = true
+					}
+				})
 				instrs(fn, func(b *ssa.BasicBlock, i int, in ssa.Instruction) {
 					item, okv, what := pulledItem(in)
 					if item == nil {
@@ -90,6 +96,22 @@ func ruleNoDiscardedPull(c *Ctx, r *R, rels ...string) {
 						}
 						if v, val := g.boolVal(); v == okv && !val {
 							return ss(0), true // nothing was obtained
+						} else if phi, isPhi := v.(*ssa.Phi); isPhi && !val {
+							// for item, ok := src.Next(); ok; item, ok = src.Next(): the loop condition tests the ok of whichever
+							// pull came last; when every alternative is the ok of a pull and this pull's is among them, a false test
+							// means the last pull obtained nothing
+							mine, all := false, true
+							for _, e := range phi.Edges {
+								if e == okv {
+									mine = true
+								}
+								if !allOks[e] {
+									all = false
+								}
+							}
+							if mine && all {
+								return ss(0), true
+							}
 						}
 						if cf, ok := g.asCmp(); ok && (cf.x == okv || cf.y == okv) {
 							// error result: err != nil (true) or err == End (true) ⇒ nothing obtained
@@ -320,10 +342,11 @@ func ruleRunsInnerSticky(c *Ctx, r *R) {
 		r.undecided("iterator.runsInnerIterator.Next|missing", token.NoPos, "anchor not found")
 		return
 	}
+	att := attachmentField(fn)
 	pf := &PF{N: 2} // 0 = parent possibly set, 1 = parent nil
 	pf.Instr = func(f *ssa.Function, in ssa.Instruction, q int) (StateSet, bool) {
 		if st, ok := in.(*ssa.Store); ok {
-			if _, fld, ok := storedField(st.Addr); ok && fld == "parent" {
+			if _, fld, ok := storedField(st.Addr); ok && fld == att {
 				if isNilConst(st.Val) {
 					return ss(1), true
 				}
@@ -335,7 +358,7 @@ func ruleRunsInnerSticky(c *Ctx, r *R) {
 	pf.Edge = func(f *ssa.Function, g guard, q int) (StateSet, bool) {
 		b := g.blk
 		_ = b
-		if cf, ok := g.asCmp(); ok && strings.HasSuffix(path(cf.x), ".parent") && isNilConst(cf.y) {
+		if cf, ok := g.asCmp(); ok && strings.HasSuffix(path(cf.x), "."+att) && isNilConst(cf.y) {
 			if cf.op == token.EQL {
 				return ss(1), true
 			}
@@ -428,3 +451,27 @@ var _ = late(func() {
 		&Rule{ID: "C07.runs-adjacent", Floor: 3, Clause: "xslices.Runs (same rule as C19.runs-adjacent): consecutive runs are adjacent on every path into the loop, the last run is s[lo:] and is emitted for every non-empty input", Run: ruleRunsAdjacent},
 	)
 })
+
+// attachmentField: the field of the run's inner iterator / stream through which it reaches the shared source and whose being
+// nil means "this run has ended": by role, the receiver field that the entry block of Next tests against nil ("parent" in the
+// pinned code; a copy of the source itself when the run keeps that instead of a pointer to its maker).
+func attachmentField(fn *ssa.Function) string {
+	if len(fn.Blocks) == 0 || len(fn.Params) == 0 {
+		return "parent"
+	}
+	b := fn.Blocks[0]
+	iff, ok := b.Instrs[len(b.Instrs)-1].(*ssa.If)
+	if !ok {
+		return "parent"
+	}
+	cf, ok := (guard{cond: iff.Cond, val: true}).asCmp()
+	if !ok || !isNilConst(cf.y) {
+		return "parent"
+	}
+	if ld, ok := cf.x.(*ssa.UnOp); ok && ld.Op == token.MUL {
+		if fa, ok := ld.X.(*ssa.FieldAddr); ok && fa.X == ssa.Value(fn.Params[0]) {
+			return fieldName(fa.X.Type(), fa.Field)
+		}
+	}
+	return "parent"
+}
